@@ -152,6 +152,31 @@ def _equiv_norm(e: ast.expr) -> ast.expr:
     if isinstance(e, ast.Call) and isinstance(e.func, ast.Attribute) and e.func.attr == "reshape" and len(e.args) == 1 and isinstance(e.args[0], ast.Tuple) and \
             not any(isinstance(x, ast.Starred) for x in e.args[0].elts):
         e = ast.Call(func=e.func, args=list(e.args[0].elts), keywords=list(e.keywords))
+    # the same fusion on the expander's canonical form, where the element of an iterable X is written __elem__(X):
+    #   __elem__([E for _ in xs]) == E        and        [F for _ in [E for _ in xs]] == [F for _ in xs]   (F refers to its element only through __elem__)
+    if isinstance(e, ast.Call) and isinstance(e.func, ast.Name) and e.func.id == "__elem__" and len(e.args) == 1 and \
+            isinstance(e.args[0], (ast.ListComp, ast.GeneratorExp)) and len(e.args[0].generators) == 1 and not e.args[0].generators[0].ifs:
+        return _equiv_norm(e.args[0].elt)
+    if isinstance(e, (ast.ListComp, ast.GeneratorExp)) and len(e.generators) == 1 and not e.generators[0].ifs and isinstance(e.generators[0].target, ast.Name) and \
+            e.generators[0].target.id.startswith("_c") and isinstance(e.generators[0].iter, (ast.ListComp, ast.GeneratorExp)) and \
+            len(e.generators[0].iter.generators) == 1 and not e.generators[0].iter.generators[0].ifs:
+        # (canonical comprehension variables `_cN` are never read: elements are written __elem__(iter))
+        g0 = copy.copy(e.generators[0])
+        g0.iter = e.generators[0].iter.generators[0].iter
+        e = type(e)(elt=e.elt, generators=[g0])
+    if isinstance(e, (ast.ListComp, ast.GeneratorExp)) and len(e.generators) == 1 and not e.generators[0].ifs and isinstance(e.generators[0].target, ast.Name) and \
+            isinstance(e.generators[0].iter, (ast.ListComp, ast.GeneratorExp)) and len(e.generators[0].iter.generators) == 1 and \
+            not e.generators[0].iter.generators[0].ifs:
+        # comprehension fusion: [f(y) for y in [g(x) for x in xs]] == [f(g(x)) for x in xs]
+        inner = e.generators[0].iter
+        y = e.generators[0].target.id
+
+        class _S(ast.NodeTransformer):
+            def visit_Name(self, n):
+                return copy.deepcopy(inner.elt) if n.id == y else n
+        elt = _S().visit(copy.deepcopy(e.elt))
+        e = type(e)(elt=elt, generators=[copy.deepcopy(inner.generators[0])])
+        ast.fix_missing_locations(e)
     if isinstance(e, ast.Call) and isinstance(e.func, ast.Name) and e.func.id == "dict" and not e.args and e.keywords and all(k.arg is not None for k in e.keywords):
         return ast.Dict(keys=[ast.Constant(value=k.arg) for k in e.keywords], values=[k.value for k in e.keywords])
     if isinstance(e, ast.BinOp) and isinstance(e.op, ast.Add):
